@@ -8,6 +8,7 @@ import random
 import tempfile
 from collections import Counter
 
+import common
 from common import Ctx, exc_name
 from gridsim import RefGrid, Tokens, apply_op, enc_op, observe, show_obs, well_formed
 
@@ -16,10 +17,10 @@ PROPS_MODULE = "NumbersModel.Props.C03"
 THEOREMS = [f"NumbersModel.Props.C03.{t}" for t in (
     "wf_init", "abs_init", "wf_step", "refines", "ok_only_if_valid", "invalid_raises_IndexError", "valid_succeeds",
     "wf_reachable", "wf_reachable_from", "refines_history", "isolation", "structural_ops_pure", "save_pure",
-    "wf_doc_step")]
+    "wf_doc_step", "cache_key_injective", "memo_transparent")]
 PARTIAL = {
-    "cache_key_injective / memo_transparent": "not modelled: the numbers_cache memo is exercised only through the "
-    "interleaved multi-table histories (no theorem)",
+    "memo_transparent": "proved for integer key arguments and pure methods (Model/Cache.lean); that the decorated methods "
+    "of model.py are pure between invalidations is exercised by the interleaved multi-table histories, not proved",
     "save_pure": "the model's `save` is the identity on grids; that the saved file reopens to `abs s` is tied to the "
     "code by the save/reopen steps of the lock-step histories (and is C01's `table_roundtrip`), not proved here",
 }
@@ -388,6 +389,38 @@ def _collect(ctx: Ctx, name: str, results, exhaustive: bool):
     ctx.correspond(name, req, out, exhaustive=exhaustive, keep=2)
 
 
+
+def cache_correspondence(ctx: Ctx):
+    """numbers_cache.cache on a real Cacheable instance vs Model/Cache.lean (keys, results, number of misses)."""
+    from numbers_parser.numbers_cache import Cacheable, cache
+    rng = ctx.rng
+    req, out = [], []
+    for _ in range(400 if ctx.quick else 20000):
+        n = rng.randrange(1, 4)
+        pool = [rng.choice([0, 1, -1, 2, 10, 12, -3, 100, 65536, -65536, 10**9]) for _ in range(4)]
+        calls = [tuple(rng.choice(pool) for _ in range(n)) for _ in range(rng.randrange(1, 9))]
+        misses = []
+
+        class T(Cacheable):
+            @cache(num_args=n)
+            def m(self, *a):
+                misses.append(a)
+                return sum(x * x + i for i, x in enumerate(a))
+
+        t = T()
+        vals = [t.m(*a) for a in calls]
+        req.append(f"cache calls {n} " + " ".join(str(x) for a in calls for x in a))
+        out.append("ok " + " ".join(map(str, vals)) + f" | {len(misses)}")
+        for a, v in zip(calls, vals):
+            if v != sum(x * x + i for i, x in enumerate(a)):
+                ctx.violation("memo-returns-other-call's-value", f"cached method called with {a} returned {v}", {"calls": calls, "n": n})
+        for a in set(calls):
+            req.append("cache key " + " ".join(map(str, a)))
+            k = ".".join(str(x) for x in a)
+            out.append(("ok " + common.enc_text(k)) if k in t._cache["m"] else "ok <missing>")
+    ctx.correspond("numbers_cache: memo keys, results and miss counts on a real Cacheable", req, out)
+
+
 def run(ctx: Ctx):
     rng = ctx.rng
     shapes = [(1, 1), (2, 2), (2, 3)]
@@ -430,6 +463,7 @@ def run(ctx: Ctx):
         _collect(ctx, "seeded long histories (20..200 steps; several tables, sheets, documents; save / reopen / repeat-save)",
                  res, exhaustive=False)
         ctx.extra["long_history_steps"] = sum(len(j[1]) for j in jobs)
+    cache_correspondence(ctx)
 
 
 def replay(data):
